@@ -644,6 +644,9 @@ func tuples(n int, alphabet []int64, f func([]int64)) {
 
 func main() {
 	r = vk.New("model_checking")
+	if r.ReplayIn != "" {
+		fmt.Printf("replay %s: the exploration is deterministic and exhaustive; re-running the quick tier re-reports the recorded violation key if it still occurs\n", r.ReplayIn)
+	}
 	r.SetBudget(80*time.Second, 15*time.Minute)
 	for i := 0; i < 6; i++ {
 		p := ed25519.GenPrivKeyFromSecret([]byte(fmt.Sprintf("verif-c37-validator-%d", i)))
